@@ -261,6 +261,9 @@ func (t *regexTree) match(segment string, params Params) bool {
 	}
 
 	for i, bind := range t.binds {
+		if bind == "" {
+			continue // A capturing group of the expression itself
+		}
 		params[bind] = submatches[i+1]
 	}
 	return true
@@ -388,6 +391,9 @@ func newTree(parent Tree, s *Segment) (Tree, error) {
 	}
 
 	for _, bind := range binds {
+		if bind == "" {
+			continue // A capturing group of the expression itself
+		}
 		if _, exists := parentBindSet[bind]; exists {
 			return nil, errors.Errorf("duplicated bind parameter %q in position %d", bind, s.Pos.Offset)
 		}
